@@ -31,7 +31,11 @@ static void th_dealloc(const GPAllocator* a, void* p)
 }
 static const GPAllocator th_allocator = { th_alloc, th_dealloc };
 static const GPAllocator* th_saved;
+#ifdef VERIF_NO_TRACK   /* release builds: gp_heap is const; nothing is tracked, the counters stay 0 */
+static void th_install(void) { (void)th_saved; (void)th_allocator; }
+#else
 static void th_install(void) { th_saved = gp_heap; gp_heap = &th_allocator; }
+#endif
 static void th_reset(void) { th_count = th_log_from = th_frees = th_bad_free = 0; }
 static size_t th_live(void) { size_t k = 0; for (size_t i = 0; i < th_count; i++) k += th_tab[i].live; return k; }
 /* prints " m:<sizes since last call or -> f:<frees since last call>" */
